@@ -817,6 +817,7 @@ Definition s_Builtin : bytes := [66;117;105;108;116;105;110].
 Definition s_FunctionCode : bytes := [70;117;110;99;116;105;111;110;67;111;100;101].
 Definition s_Function : bytes := [70;117;110;99;116;105;111;110].
 Definition s_Range : bytes := [82;97;110;103;101].
+Definition s_Iterable : bytes := [73;116;101;114;97;98;108;101].
 Definition s_Mandatory : bytes := [77;97;110;100;97;116;111;114;121].
 Definition s_mandatory : bytes := [109;97;110;100;97;116;111;114;121].
 Definition s_Unassigned : bytes := [85;110;97;115;115;105;103;110;101;100].
@@ -871,6 +872,9 @@ Definition env_unpickle (m n : bytes) (args : list val) (h : heap) : eres :=
   else if str_eqb n s_Range then
     (* since d823318: a range, by its text *)
     match args with [a] => EOk (VTuple [a]) h | _ => EErr end
+  else if str_eqb n s_Iterable then
+    (* since the fix that followed d823318: an iterable that is neither sequence nor mapping, as (type, elements) *)
+    match args with [a; b] => EOk (VTuple [a; b]) h | _ => EErr end
   else if str_eqb n s_Mandatory then
     (* since 06af877: placeholder default of a keyword-only parameter without default *)
     match args with [] => EOk (VTuple [VStr s_mandatory]) h | _ => EErr end
